@@ -40,6 +40,7 @@ CLAIMS = {
   "C14": ("macro-seq", MACRO_TXT, "6 C14"),
   "C15": ("macro-seq+conc", MACRO_TXT + " Concurrent clause: " + CONC_TXT, "6 C15"),
   "C16": ("engine-seq", ENGINE_TXT, "6 C16"),
+  "C19": ("attrs", "Attrs.tla defines the meaning of an attribute list (reject, or the engine configuration with KB/MB/GB as powers of 1024); a covering array over attribute values x signature shapes for both macros is compiled into the harness and driven; TLC judges every recorded step (all monitors, Trace.tla) under the configuration AS WRITTEN; every invalid list of the corpus must fail to compile (cargo check diagnostics mapped back to the items).", "6 C19"),
   "C20": ("macro-seq", MACRO_TXT + " For this property the System specification lets async calls be suspended after their lookup, interleaves other operations, and resumes or drops them; the harness polls the real futures by hand (gates at every await), logs every poll, checks after each pending poll and each drop that no cache changed and no cache lock is held, and runs everything under a watchdog.", "6 C20"),
 }
 EXTRA = {}
@@ -89,6 +90,8 @@ m = {"version": 1,
           "serves_properties": ["C02"], "kind_free_text": "TLA+ spec of key rendering + TLC; key fixtures of 15 signatures (sync+async, methods)"},
          {"name": "conc", "path": "harness/shim/parking_lot harness/src/conc.rs spec/SysMonitors.tla (QuiesceFails, GenuineDeadlock) spec/Trace.tla lib/conc_checks.py",
           "serves_properties": ["C03", "C15", "C17", "C18"], "kind_free_text": "schedule exploration of the real code under a lock-granular cooperative scheduler; TLC judges the records"},
+         {"name": "attrs", "path": "spec/Attrs.tla lib/attr_corpus.py lib/gen_fixtures.py harness/src/corpus_gen_real.rs lib/attrs_check.py",
+          "serves_properties": ["C19"], "kind_free_text": "TLA+ meaning of attribute lists + generated corpus of decorated functions (valid: compiled and driven; invalid: must not compile)"},
      ] + EXTRA.get("engines", []),
      "checks": checks,
      "not_applicable": na,
